@@ -343,7 +343,7 @@ def make_model(desc):
 
 def sequential(tier):
     names = list(make_ops())
-    st = bfs(SeqModel(names), 3 if tier == "thorough" else 2, budget_s=2400 if tier == "thorough" else 200)
+    st = bfs(SeqModel(names), 3 if tier == "thorough" else 2, budget_s=2400 if tier == "thorough" else 2000)
     return st
 
 
@@ -711,6 +711,6 @@ PARTS = [
     Part("sequential-histories", custom=sequential, engine="E2"),
     _pd,
     Part("scheduler-selftest", custom=selftest, engine="E3"),
-    Part("thread-schedules", h_pairs, bound={"quick": 1, "thorough": 2}, split_depth=3, budget={"quick": 240, "thorough": 3000}, engine="E3"),
+    Part("thread-schedules", h_pairs, bound={"quick": 1, "thorough": 2}, split_depth=3, budget={"quick": 2400, "thorough": 3000}, engine="E3"),
     _pf,
 ]
